@@ -80,6 +80,23 @@ def check(run):
             raise
         run.log(f'[C13] translator validation stopped ({str(e)[:120]}); static findings are reported and confirmed natively')
         return {'violations': [dict(v, property='C13') for _, v in sorted(viol.items())][:6], 'exhaustive': False}
+    # native monitor on the whole differential corpus: the replay binary counts heap allocations made while library code runs
+    # (handlers and the harness allocate outside the counted region)
+    try:
+        from .. import diffcorpus
+        from ..replay import run_native
+        cases = diffcorpus.corpus(run.seed, full=True)
+        raw = run_native(cases, run.paths['vreplay'])
+        bad = [(c, js.get('allocs')) for c, js in zip(cases, raw) if js.get('allocs')]
+        cov['native_allocation_counter'] = {'cases': len(cases), 'cases_with_allocations': len(bad)}
+        cov['traces_validated_against_impl'] += len(cases)
+        run.log(f'[native] allocation counter: {len(bad)} of {len(cases)} corpus cases allocate inside library code')
+        if bad:
+            c = bad[0][0]
+            viol['NATIVE:alloc'] = {'rule': 'NATIVE', 'what': f'{bad[0][1]} heap allocation(s) inside library code on {c.get("entry")} {c.get("device")} input {bytes.fromhex(c.get("input", "")).decode("latin1")!r}',
+                                    'input': c.get('input', ''), 'case': c, 'role': 'NATIVE:alloc'}
+    except Exception as e:
+        run.log('[native] allocation counter not available: ' + repr(e)[:200])
     # (2) dynamic: representative explorations with the call-resolution monitor (an unknown callee aborts the run)
     records = []
     plans = [('run T1, free-form L=4, heapless response buffer (cap 8)', FREE + ({'entry': 'run', 'L': 4, 'cap': 8},)),
@@ -119,6 +136,10 @@ def confirm(run, v):
     """native: count heap allocations made by library code on representative cases with fixed-capacity buffers"""
     if v['rule'] == 'NOSTD':
         return True, {'note': 'source-level fact: ' + v['what']}
+    if v['rule'] == 'NATIVE':
+        from ..replay import run_native
+        al = {('release' if rel else 'dev'): run_native([v['case']], run.paths['vreplay_release'] if rel else run.paths['vreplay'])[0].get('allocs') for rel in (False, True)}
+        return any(al.values()), {'allocations': al}
     cases = [{'entry': 'run', 'device': 'T1', 'input': b'A:B;:X;U? 5;S "x";K #11a;FOO\nA:Q?\n'.hex(), 'cap': 64},
              {'entry': 'process', 'device': 'T1', 'input': b'A:Q?\nX\nFOO\nS "a\nb"\n'.hex(), 'n': 16, 'chunks': [], 'tail': 3},
              {'entry': 'run', 'device': 'TR', 'input': b'RST?;RT4?;RAR?;RF64?;RI64?;RHV?;RER?\n'.hex(), 'cap': 256},
